@@ -10,6 +10,8 @@ goldens agree across hash seeds and across two forks.
 run groups (fixed by tier, see plan()):
   A   per planted rejection e: [compile e] then every valid / context-invalid design twice, order seeded
   A2  (thorough) every adjacent pair: [compile e, compile d, compile d]
+  O   a design compiled with and without additional_reserved_names, alternating
+  R   the SAME class object compiled again after a rejected attempt (module-level flag guards the error)
   B   sampled longer histories (12..40 ops: valid, planted, context-invalid, gc)
   C   cross-hash-seed goldens of every valid (thorough: also every planted) design, and two forks of one interpreter
 (fork() does not scale across processes in this VM, so histories are long rather than many.)
@@ -76,8 +78,8 @@ def prepare(seed, tier):
 def sizes(tier):
     v, p = tables()
     if tier == "quick":
-        return {"A": len(p), "A2": 0, "O": len(v), "B": 120, "C": len(v)}
-    return {"A": len(p) * 8, "A2": len(p) * (len(v)), "O": len(v) * 8, "B": 6000, "C": len(v) + len(p)}
+        return {"A": len(p), "A2": 0, "O": len(v), "R": len(pool.RETRY) * 2, "B": 120, "C": len(v)}
+    return {"A": len(p) * 8, "A2": len(p) * (len(v)), "O": len(v) * 8, "R": len(pool.RETRY) * 16, "B": 6000, "C": len(v) + len(p)}
 
 
 def plan(tier):
@@ -110,6 +112,17 @@ def golden(hs, src, planted_hs=None, opts=None):
     return g
 
 
+def golden_mod(hs, src, flag):
+    """outcome of compiling the kept module's class E in a fresh fork with FLAGS['bad'] == flag"""
+    k = (hs, "mod", srckey(src), bool(flag))
+    g = _golden.get(k)
+    if g is None:
+        ops = [["define_keep", "m", src]] + ([] if flag else [["setflag", "m", False]]) + [["compile_mod", "m"]]
+        g = pristine.get(hs).call(FN, {"ops": ops, "probe": False})[-1]
+        _golden[k] = g
+    return g
+
+
 def classify(gold, got):
     if gold["st"] == "ok" and got["st"] == "ok":
         return None if gold["sha"] == got["sha"] else "history-alters-output"
@@ -123,10 +136,18 @@ def classify(gold, got):
 def check_history(hs, ops):
     """-> (vclass|None, detail, outcomes)"""
     outs = pristine.get(hs).call(FN, {"ops": ops, "probe": True})
+    kept = {}
     for i, (op, o) in enumerate(zip(ops, outs)):
-        if op[0] != "compile":
+        if op[0] == "define_keep":
+            kept[op[1]] = [op[2], True]
+        elif op[0] == "setflag":
+            kept[op[1]][1] = bool(op[2])
+        if op[0] not in ("compile", "compile_mod"):
             continue
-        g = golden(hs, op[1], planted_hs=0, opts=op[2] if len(op) > 2 else None)
+        if op[0] == "compile_mod":
+            g = golden_mod(hs, kept[op[1]][0], kept[op[1]][1])
+        else:
+            g = golden(hs, op[1], planted_hs=0, opts=op[2] if len(op) > 2 else None)
         c = classify(g, o)
         if c:
             det = {"op_index": i, "hashseed": hs, "fresh": {k: g.get(k) for k in ("st", "sha", "exc", "msg")}, "in_history": {k: o.get(k) for k in ("st", "sha", "exc", "msg")}}
@@ -188,6 +209,23 @@ def run_one(seed, idx, tier):
         d2 = vk[rs.below(len(vk))]
         ops = [["compile", v[d], r1], ["compile", v[d]], ["compile", v[d2]], ["compile", v[d], r1], ["compile", v[d2], {"reserved": sorted(rs.sample(RESERVED, 3))}], ["compile", v[d]]]
         names = [d + "+reserved", d, d2, d + "+reserved", d2 + "+reserved", d]
+    elif grp == "R":
+        # the SAME class object compiled again after a rejected attempt (a module-level flag guards the user error)
+        rk = sorted(pool.RETRY)
+        rep, ri = divmod(j, len(rk))
+        r = rk[ri]
+        rs = rng.Stream(seed, "C11", "R", j)
+        hs = hss[(ri + rep) % nh]
+        ops = [["define_keep", r, pool.RETRY[r]], ["compile_mod", r], ["setflag", r, False], ["compile_mod", r], ["compile_mod", r]]
+        names = ["define " + r, r + "(flag set)", "clear flag", r, r]
+        if rep:
+            # interleave other compilations and a second rejected attempt
+            d2 = vk[rs.below(len(vk))]
+            ops[3:3] = [["compile", v[d2]]]
+            names[3:3] = [d2]
+            if rs.below(2):
+                ops += [["setflag", r, True], ["compile_mod", r], ["setflag", r, False], ["compile_mod", r]]
+                names += ["set flag", r + "(flag set)", "clear flag", r]
     elif grp == "B":
         rs = rng.Stream(seed, "C11", "history", j)
         hs = hss[rs.below(nh)]
@@ -318,7 +356,7 @@ ASSUMPTIONS = [
 
 def evidence(results, tier):
     v, p = tables()
-    hist = [r for r in results if r.get("group") in ("A", "A2", "B", "O")]
+    hist = [r for r in results if r.get("group") in ("A", "A2", "B", "O", "R")]
     nontriv = {r["shape"] for r in hist if r.get("nrej", 0) >= 1 and r.get("nacc", 0) >= 1}
     dirty = {}
     sites = {}
